@@ -3,6 +3,7 @@
 (* Batch validation of legacy ({...}) pattern events recorded from the     *)
 (* real code (v1version, `bumpver test V '{...}'`) against BVLegacy (C20). *)
 (*   rt1     render / recognise / read back / re-render of a state         *)
+(*   derived1  a derived search pattern renders what it finds in full       *)
 (*   incr1   old --flags,date--> out  : strictly greater, and the spec's   *)
 (*           own IncrV1 as prediction                                      *)
 (***************************************************************************)
@@ -25,6 +26,15 @@ Rt1Verdict(e) ==
   ELSE IF e.again # e.text THEN <<"rt1:rerender", e.again>>
   ELSE Good
 
+\* a derived search pattern ({pep440_pycalver}, {pep440_tag}, ...): rendered and searched for, never read back
+\*  e.text : the code's rendering of e.v    e.accepted : the pattern compiled by the code finds the text in full
+Derived1Verdict(e) ==
+  LET t == Render(e.v, e.P) acc == ~IsBad(Parse(t, e.P)) IN
+  IF t # e.text THEN <<"derived1:render", t>>
+  ELSE IF acc # e.accepted THEN <<"derived1:recogniser-verdict", acc>>
+  ELSE IF ~e.accepted THEN <<"derived1:not-accepted", 0>>
+  ELSE Good
+
 \*  e.old, e.out texts (e.out = <<0>> refused, <<0,0>> overflow)   e.lex : must the result also grow as a plain string ({pycalver})
 Incr1Verdict(e) ==
   LET t == Incr(e.old, e.P, e.f, e.date) IN
@@ -35,7 +45,7 @@ Incr1Verdict(e) ==
   ELSE IF t # e.out THEN <<"incr1:divergence", t>>
   ELSE Good
 
-Verdict(e) == CASE e.ev = "rt1" -> Rt1Verdict(e) [] e.ev = "incr1" -> Incr1Verdict(e) [] OTHER -> <<"unknown-event", e.ev>>
+Verdict(e) == CASE e.ev = "rt1" -> Rt1Verdict(e) [] e.ev = "incr1" -> Incr1Verdict(e) [] e.ev = "derived1" -> Derived1Verdict(e) [] OTHER -> <<"unknown-event", e.ev>>
 TraceNext == /\ l <= Len(Trace) /\ l' = l + 1
              /\ LET v == Verdict(Trace[l]) IN v[1] = OK \/ Report(Trace[l], v[1], v[2])
 TraceAccepted == TLCGet("stats").diameter - 1 = Len(Trace)
